@@ -14,6 +14,7 @@ import (
 	"runtime/pprof"
 	"sort"
 	"strconv"
+	"strings"
 	"sync"
 	"sync/atomic"
 	"time"
@@ -122,6 +123,16 @@ func New(id string) *Report {
 		}
 	}
 	r.deadline = r.start.Add(time.Duration(budget * float64(time.Second)))
+	PanicHook = func(msg string) {
+		first := msg
+		if i := strings.IndexByte(first, '\n'); i > 0 {
+			first = first[:i]
+		}
+		if len(first) > 160 {
+			first = first[:160]
+		}
+		r.Fail("panic during exploration: "+first, "panic", map[string]any{"panic": msg, "what": "the library (or a constructor the harness relies on) panicked inside an exploration worker"}, nil)
+	}
 	if pp := os.Getenv("VERIF_PPROF"); pp != "" {
 		if f, err := os.Create(pp); err == nil {
 			pprof.StartCPUProfile(f)
@@ -504,6 +515,23 @@ func HS(parts ...string) uint64 {
 	return h
 }
 
+// PanicHook receives panics that escape a Par worker (a library panic outside a Safe-wrapped runner). The
+// Report installs a hook that records them as violations; without a hook the panic propagates.
+var PanicHook func(msg string)
+
+func safeCall(fn func(int), i int) {
+	if PanicHook == nil {
+		fn(i)
+		return
+	}
+	defer func() {
+		if x := recover(); x != nil {
+			PanicHook(fmt.Sprint(x))
+		}
+	}()
+	fn(i)
+}
+
 // StopAll makes every Par loop stop handing out work (set after repeated non-terminating cases).
 var StopAll atomic.Bool
 
@@ -515,7 +543,7 @@ func Par(n int, fn func(i int)) {
 	}
 	if w <= 1 {
 		for i := 0; i < n; i++ {
-			fn(i)
+			safeCall(fn, i)
 		}
 		return
 	}
@@ -530,7 +558,7 @@ func Par(n int, fn func(i int)) {
 				if i >= n || StopAll.Load() {
 					return
 				}
-				fn(i)
+				safeCall(fn, i)
 			}
 		}()
 	}
